@@ -149,7 +149,7 @@ def splice(cb, gb, arg_rvalues, dest, target, loc):
 
 ITER = "std::iter::Iterator::"
 STAGES = ("map", "filter", "filter_map", "inspect", "flat_map", "flatten")
-SINKS = ("collect", "any", "all", "for_each", "extend", "find", "find_map", "last", "for")
+SINKS = ("collect", "any", "all", "for_each", "extend", "find", "find_map", "last", "for", "fold")
 
 COLLECTIONS = (
     ("std::vec::Vec<", "std::vec::Vec::<T>::new", "std::vec::Vec::<T, A>::push"),
@@ -277,6 +277,10 @@ def fn_param_ty(sf, k):
     return "?"
 
 
+ADAPTOR_TYPES = ("std::iter::Map<", "std::iter::Filter<", "std::iter::FilterMap<", "std::iter::FlatMap<", "std::iter::Flatten<", "std::iter::Cloned<",
+                 "std::iter::Copied<", "std::iter::Enumerate<", "std::iter::Rev<", "std::iter::Chain<", "std::iter::Skip<", "std::iter::Take<")
+
+
 def chain_of(b, operand, bodies):
     """walk back from the receiver of a sink through map / filter / .. calls: ([(stage, function, call block, fn record)], source operand)"""
     stages = []
@@ -296,6 +300,9 @@ def chain_of(b, operand, bodies):
                 continue
             break
         fn = callee_of(d[2])
+        if fn is not None and fn["path"] == "std::iter::IntoIterator::into_iter" and len(d[2]["args"]) == 1 and (fn.get("gargs") or [""])[0].startswith(ADAPTOR_TYPES):
+            o = d[2]["args"][0]  # an iterator is its own IntoIter
+            continue
         if fn is None or not fn["path"].startswith(ITER) or fn["path"][len(ITER):] not in STAGES:
             break
         name = fn["path"][len(ITER):]
@@ -434,10 +441,10 @@ def desugar_body(b, bodies, known_uses, log):
             if sink == "for" and not stages:
                 continue
             sink_f = None
-            if sink in ("any", "all", "for_each", "find", "find_map"):
-                if len(t["args"]) != 2:
+            if sink in ("any", "all", "for_each", "find", "find_map", "fold"):
+                if len(t["args"]) != (3 if sink == "fold" else 2):
                     continue
-                sink_f = stage_fn(b, t["args"][1], bodies)
+                sink_f = stage_fn(b, t["args"][-1], bodies)
                 if sink_f is None:
                     continue
             key_uses = [(b["path"], s_[0]) for s_ in stages] + ([(b["path"], sink)] if sink_f is not None else [])
@@ -510,7 +517,9 @@ def desugar_body(b, bodies, known_uses, log):
 
             none = new_block(b, [], None, loc)
             firstf = stages[0][1] if stages and stages[0][1] is not None else sink_f
-            first_param_ty = fn_param_ty(firstf, 0) if firstf is not None else "?"
+            first_param_ty = fn_param_ty(firstf, 1 if (sink == "fold" and firstf is sink_f) else 0) if firstf is not None else "?"
+            if sink == "fold" and t["dest"]["pr"]:
+                continue
             by_ref_first = (stages and stages[0][0] in ("filter", "inspect")) or (not stages and sink == "find")
             ety0 = first_param_ty[1:].lstrip() if by_ref_first and first_param_ty.startswith("&") else first_param_ty
             # a literal array as the source (`[a, b].into_iter().any(f)`): one copy of the element pipeline per element instead of a loop
@@ -539,6 +548,8 @@ def desugar_body(b, bodies, known_uses, log):
             else:
                 if sink == "last":
                     blk["stmts"].append(assign(copy.deepcopy(dest), adt_agg("std::option::Option", "None", 0, []), loc))
+                if sink == "fold":
+                    blk["stmts"].append(assign(copy.deepcopy(dest), use(copy.deepcopy(t["args"][1])), loc))
                 blk["term"] = goto(first_bb)
 
             def run_fn(cur_bb, sf, arg_rvs, res_ty):
@@ -692,6 +703,14 @@ def desugar_body(b, bodies, known_uses, log):
                         nb_ = rename(b["blocks"][x_], {}, {h_: skip})
                         b["blocks"][x_]["term"] = nb_["term"]
                     b["blocks"][none]["term"] = goto(exhausted_)
+                elif sink == "fold":
+                    # `acc = init; for e in it { acc = f(acc, e) }; acc`
+                    b["_fold"] = True
+                    aty = dest.get("ty") or b["locals"][dest["l"]]["ty"]
+                    res, cur_bb = run_fn(cur_bb, sink_f, [use({"k": "move", "p": copy.deepcopy(dest)}), use(mv(e_l, ety))], aty)
+                    b["blocks"][cur_bb]["stmts"].append(assign(copy.deepcopy(dest), use(mv(res, aty)), loc))
+                    b["blocks"][cur_bb]["term"] = goto(skip)
+                    b["blocks"][none]["term"] = goto(cont)
                 elif sink == "last":
                     # every element overwrites what is remembered: after exhaustion the last one is left (None for an empty source)
                     b["blocks"][cur_bb]["stmts"].append(assign(copy.deepcopy(dest), adt_agg("std::option::Option", "Some", 1, [mv(e_l, ety)]), loc))
@@ -718,6 +737,417 @@ def desugar_body(b, bodies, known_uses, log):
             break
     return used
 
+
+
+# ------------------------------------------------------------------ tuples held in one variable
+
+
+def tuple_fields(ty):
+    ty = (ty or "").strip()
+    if not (ty.startswith("(") and ty.endswith(")")) or ty == "()" or "->" in ty:
+        return None
+    parts, depth, cur = [], 0, ""
+    for ch in ty[1:-1]:
+        if ch in "<([":
+            depth += 1
+        elif ch in ">)]":
+            depth -= 1
+        if ch == "," and depth == 0:
+            parts.append(cur.strip())
+            cur = ""
+        else:
+            cur += ch
+    if cur.strip():
+        parts.append(cur.strip())
+    return parts if len(parts) >= 2 else None
+
+
+def split_tuples(b, log):
+    """a local of tuple type that is only ever built from its components, copied whole, or read component by component (`let (a, b) = ..fold((0, 0),
+    |(a, b), x| ..)`, `let mut state = (x, y)`) is replaced by one local per component: exactly what the compiler's own scalar replacement does.
+    Locals whose address is taken whole, that receive a call's result or that are parameters stay as they are."""
+    nargs = b.get("arg_count", 0)
+    cands = {}
+    for i, l in enumerate(b["locals"]):
+        if i > nargs:
+            fs = tuple_fields(l["ty"])
+            if fs:
+                cands[i] = fs
+    if not cands:
+        return False
+    bad = set()
+
+    def is_field(e):
+        return isinstance(e, dict) and "f" in e and isinstance(e["f"], int)
+
+    flows = []  # (L, Y): `Y = use(L)`, both whole tuple locals
+
+    def scan(x):
+        """any occurrence other than `L.k..` disqualifies L (whole copies between candidates are looked at by the caller)"""
+        if isinstance(x, list):
+            for v in x:
+                scan(v)
+        elif isinstance(x, dict):
+            if "l" in x and "pr" in x:
+                if x["l"] in cands and (not x["pr"] or not is_field(x["pr"][0]) or x["pr"][0]["f"] >= len(cands[x["l"]])):
+                    bad.add(x["l"])
+                return
+            for v in x.values():
+                scan(v)
+
+    for blk in b["blocks"]:
+        for st in blk["stmts"]:
+            if st["k"] != "assign":
+                scan(st)
+                continue
+            p, rv = st["p"], st["rv"]
+            if p["l"] in cands and not p["pr"]:
+                n = len(cands[p["l"]])
+                if rv["k"] == "agg" and rv.get("ak") == "tuple" and len(rv["ops"]) == n:
+                    scan(rv["ops"])
+                elif rv["k"] == "use" and rv["o"]["k"] in ("move", "copy"):
+                    src = rv["o"]["p"]
+                    if src["l"] in cands and not src["pr"]:
+                        flows.append((src["l"], p["l"]))
+                        if len(cands[src["l"]]) != n:
+                            bad.add(p["l"])
+                    else:
+                        scan(src)
+                else:
+                    bad.add(p["l"])
+                    scan(rv)
+            else:
+                scan(p)
+                scan(rv)
+        t = blk["term"]
+        if t is None:
+            continue
+        if t["k"] == "drop" and t.get("p") and t["p"]["l"] in cands and not t["p"]["pr"]:
+            continue
+        scan(t)
+    grew = True
+    while grew:  # a whole copy into a local that is not split would need the tuple to be put together again: the source then stays whole too
+        grew = False
+        for (L, Y) in flows:
+            if Y in bad and L not in bad:
+                bad.add(L)
+                grew = True
+    live = {l: fs for l, fs in cands.items() if l not in bad}
+    if not live:
+        return False
+    parts = {}
+    for l, fs in live.items():
+        nm = b["locals"][l].get("name")
+        parts[l] = [new_local(b, fty, ("%s.%d" % (nm, k)) if nm else None) for k, fty in enumerate(fs)]
+        for k, nl in enumerate(parts[l]):
+            b["locals"][nl]["user"] = b["locals"][l].get("user", False)
+
+    def fld(place, k, fty):
+        return {"l": place["l"], "pr": list(copy.deepcopy(place["pr"])) + [{"f": k, "n": str(k)}], "ty": fty}
+
+    def whole_operand_temps(x, pre, loc):
+        """operands that are a whole split local: materialise the tuple just before"""
+        if isinstance(x, list):
+            for v in x:
+                whole_operand_temps(v, pre, loc)
+        elif isinstance(x, dict):
+            if x.get("k") in ("move", "copy") and "p" in x and isinstance(x["p"], dict):
+                pl = x["p"]
+                if pl["l"] in live and not pl["pr"]:
+                    fs = live[pl["l"]]
+                    tl = new_local(b, b["locals"][pl["l"]]["ty"])
+                    pre.append(assign(P(tl, ty=b["locals"][pl["l"]]["ty"]),
+                                      {"k": "agg", "ak": "tuple", "ops": [{"k": x["k"], "p": P(parts[pl["l"]][k], ty=fs[k])} for k in range(len(fs))]}, loc))
+                    x["p"] = P(tl, ty=b["locals"][pl["l"]]["ty"])
+                return
+            if "l" in x and "pr" in x:
+                return
+            for v in x.values():
+                whole_operand_temps(v, pre, loc)
+
+    def project(x):
+        """L.k.. -> L_k.."""
+        if isinstance(x, list):
+            for v in x:
+                project(v)
+        elif isinstance(x, dict):
+            if "l" in x and "pr" in x:
+                if x["l"] in live and x["pr"] and is_field(x["pr"][0]):
+                    k = x["pr"][0]["f"]
+                    x["l"] = parts[x["l"]][k]
+                    x["pr"] = x["pr"][1:]
+                    if not x["pr"]:
+                        x["ty"] = x.get("ty") or live.get(x["l"], [""])[0] if False else (x.get("ty") or "")
+                return
+            for v in x.values():
+                project(v)
+
+    for blk in b["blocks"]:
+        out = []
+        for st in blk["stmts"]:
+            loc = st.get("loc") or blk["tloc"]
+            if st["k"] == "assign" and st["p"]["l"] in live and not st["p"]["pr"]:
+                L = st["p"]["l"]
+                fs = live[L]
+                rv = st["rv"]
+                if rv["k"] == "agg":
+                    acc = set()
+                    locals_in(rv["ops"], acc)
+                    if acc & (set(live) | {x for ps in parts.values() for x in ps}):
+                        tmps = []
+                        for k, op in enumerate(rv["ops"]):
+                            tl = new_local(b, fs[k])
+                            out.append(assign(P(tl, ty=fs[k]), use(op), loc))
+                            tmps.append(tl)
+                        for k, tl in enumerate(tmps):
+                            out.append(assign(P(parts[L][k], ty=fs[k]), use(mv(tl, fs[k])), loc))
+                    else:
+                        for k, op in enumerate(rv["ops"]):
+                            out.append(assign(P(parts[L][k], ty=fs[k]), use(op), loc))
+                else:
+                    o = rv["o"]
+                    for k in range(len(fs)):
+                        out.append(assign(P(parts[L][k], ty=fs[k]), use({"k": o["k"], "p": fld(o["p"], k, fs[k])}), loc))
+                continue
+            pre = []
+            whole_operand_temps(st["rv"] if st["k"] == "assign" else st, pre, loc)
+            out += pre
+            out.append(st)
+        blk["stmts"] = out
+        t = blk["term"]
+        if t is not None:
+            if t["k"] == "drop" and t.get("p") and t["p"]["l"] in live and not t["p"]["pr"]:
+                blk["term"] = goto(t["t"])
+            else:
+                pre = []
+                whole_operand_temps(t, pre, blk["tloc"])
+                blk["stmts"] += pre
+    for blk in b["blocks"]:
+        project(blk["stmts"])
+        if blk["term"] is not None:
+            project(blk["term"])
+    log.append("%s: %d tuple variable(s) replaced by their components" % (b["path"], len(live)))
+    return True
+
+
+def _slot_rw(x, is_term):
+    reads, writes = set(), set()
+    if not is_term:
+        if x["k"] == "assign":
+            pl = x["p"]
+            if pl["pr"]:
+                locals_in(pl, reads)
+            writes.add(pl["l"])
+            locals_in(x["rv"], reads)
+        else:
+            locals_in(x, reads)
+    elif x is not None:
+        if x["k"] == "call":
+            locals_in(x["args"], reads)
+            locals_in(x.get("f"), reads)
+            if x["dest"]["pr"]:
+                locals_in(x["dest"], reads)
+            writes.add(x["dest"]["l"])
+        else:
+            locals_in(x, reads)
+    return reads, writes
+
+
+def thread_accumulators(b, log):
+    """`acc = f(acc, e)` with f spliced in leaves the new value in a temporary that is copied to the accumulator after the arms of f have joined, and
+    arms that keep a component unchanged copy it round (`p = acc; a = p; r = a; acc = r`). Both are removed: the temporary's definitions become
+    definitions of the accumulator itself, a copy of the accumulator's own current value onto itself is dropped, and copies nobody reads go."""
+    nargs = b.get("arg_count", 0)
+    n_changes = 0
+    for _round in range(400):
+        changed = False
+        blocks = b["blocks"]
+        live = [i for i, blk in enumerate(blocks)]
+        rw = {}
+        readers, writers = {}, {}
+        for bi in live:
+            blk = blocks[bi]
+            for si, st in enumerate(blk["stmts"]):
+                r_, w_ = _slot_rw(st, False)
+                rw[(bi, si)] = (r_, w_)
+            r_, w_ = _slot_rw(blk["term"], True)
+            rw[(bi, len(blk["stmts"]))] = (r_, w_)
+        for k_, (r_, w_) in rw.items():
+            for l in r_:
+                readers.setdefault(l, []).append(k_)
+            for l in w_:
+                writers.setdefault(l, []).append(k_)
+        preds = {}
+        for bi in live:
+            if blocks[bi].get("cleanup"):
+                continue
+            for t in succs(blocks[bi]):
+                preds.setdefault(t, set()).add(bi)
+
+        def whole_copy(st):
+            if st["k"] == "assign" and not st["p"]["pr"] and st["rv"]["k"] == "use" and st["rv"]["o"]["k"] in ("move", "copy") and not st["rv"]["o"]["p"]["pr"]:
+                return st["p"]["l"], st["rv"]["o"]["p"]["l"]
+            return None
+
+        dirty = set()
+        # ---- A: a temporary read once, by `A = R`, every definition of which runs straight into that copy
+        for bj in live:
+            if bj in dirty or blocks[bj].get("cleanup"):
+                continue
+            for sj, st in enumerate(blocks[bj]["stmts"]):
+                wc = whole_copy(st)
+                if not wc or wc[0] == wc[1] or wc[1] <= nargs:
+                    continue
+                A, R = wc
+                if readers.get(R, []) != [(bj, sj)] or b["locals"][R].get("user"):
+                    continue
+                defs = writers.get(R, [])
+                if not defs:
+                    continue
+                ok, chain = True, set()
+                for (bd, sd) in defs:
+                    x = blocks[bd]["term"] if sd == len(blocks[bd]["stmts"]) else blocks[bd]["stmts"][sd]
+                    whole = (x["dest"] if sd == len(blocks[bd]["stmts"]) else x["p"])
+                    if whole["pr"] or blocks[bd].get("cleanup"):
+                        ok = False
+                        break
+                    cur, pos = bd, sd + 1
+                    for _hop in range(8):
+                        end = sj if cur == bj else len(blocks[cur]["stmts"]) + (0 if (cur == bd and sd == len(blocks[bd]["stmts"])) else 1)
+                        if cur == bj and cur == bd and sd >= sj:
+                            ok = False
+                            break
+                        for q in range(pos, end):
+                            r_, w_ = rw[(cur, q)]
+                            if A in r_ or A in w_ or R in w_:
+                                ok = False
+                        if not ok or cur == bj:
+                            break
+                        t_ = blocks[cur]["term"]
+                        if cur == bd and sd == len(blocks[bd]["stmts"]):
+                            nxt = t_.get("t")
+                        elif t_["k"] == "goto":
+                            nxt = t_["t"]
+                        else:
+                            nxt = None
+                        if nxt is None:
+                            ok = False
+                            break
+                        if cur != bd:
+                            chain.add(cur)
+                        cur, pos = nxt, 0
+                    else:
+                        ok = False
+                    if not ok or cur != bj:
+                        ok = False
+                        break
+                if not ok:
+                    continue
+                defblocks = set(bd for (bd, _sd) in defs)
+                for x in chain | ({bj} - defblocks):
+                    if not preds.get(x, set()) <= (chain | defblocks):
+                        ok = False
+                if not ok or (chain | defblocks | {bj}) & dirty:
+                    continue
+                dirty |= chain | defblocks | {bj}
+                for (bd, sd) in defs:
+                    if sd == len(blocks[bd]["stmts"]):
+                        blocks[bd]["term"]["dest"] = copy.deepcopy(st["p"])
+                    else:
+                        blocks[bd]["stmts"][sd]["p"] = copy.deepcopy(st["p"])
+                del blocks[bj]["stmts"][sj]
+                changed = True
+                break
+        # ---- B: `A = X` with X a (copy of a copy of a) copy of A taken at P, A not written between P and here
+        for bj in live:
+            if bj in dirty or blocks[bj].get("cleanup"):
+                continue
+            for sj, st in enumerate(blocks[bj]["stmts"]):
+                wc = whole_copy(st)
+                if not wc:
+                    continue
+                A, X = wc
+                P_ = None
+                for _step in range(6):
+                    if X == A:
+                        break
+                    ws_ = writers.get(X, [])
+                    if X <= nargs or len(ws_) != 1 or ws_[0][1] >= len(blocks[ws_[0][0]]["stmts"]) or blocks[ws_[0][0]].get("cleanup"):
+                        X = None
+                        break
+                    wc2 = whole_copy(blocks[ws_[0][0]]["stmts"][ws_[0][1]])
+                    if not wc2 or wc2[0] != X:
+                        X = None
+                        break
+                    P_ = ws_[0]
+                    X = wc2[1]
+                if X != A or P_ is None:
+                    continue
+                S_ = (bj, sj)
+
+                def nexts(node):
+                    bi_, si_ = node
+                    if si_ < len(blocks[bi_]["stmts"]):
+                        return [(bi_, si_ + 1)]
+                    return [(t, 0) for t in succs(blocks[bi_]) if not blocks[t].get("cleanup")]
+                fwd, stack = set(), nexts(P_)
+                while stack:
+                    nd = stack.pop()
+                    if nd in fwd or nd == P_:
+                        continue
+                    fwd.add(nd)
+                    if nd != S_:
+                        stack += nexts(nd)
+                if S_ not in fwd:
+                    continue
+                # backwards from S over the forward set
+                back_edges = {}
+                for nd in fwd:
+                    if nd == S_:
+                        continue
+                    for m in nexts(nd):
+                        back_edges.setdefault(m, []).append(nd)
+                for m in nexts(P_):
+                    back_edges.setdefault(m, [])
+                bwd, stack = set(), [S_]
+                while stack:
+                    nd = stack.pop()
+                    if nd in bwd:
+                        continue
+                    bwd.add(nd)
+                    stack += [m for m in back_edges.get(nd, []) if m in fwd]
+                if any(nd[0] in dirty or A in rw[nd][1] for nd in (fwd & bwd) if nd != S_ and nd in rw) or P_[0] in dirty:
+                    continue
+                del blocks[bj]["stmts"][sj]
+                dirty.add(bj)
+                changed = True
+                break
+        # ---- C: copies nobody reads
+        for l, ws in writers.items():
+            if l <= nargs or readers.get(l) or any(bd in dirty for (bd, _sd) in ws):
+                continue
+            sts = []
+            for (bd, sd) in ws:
+                if sd == len(blocks[bd]["stmts"]):
+                    sts = None
+                    break
+                x = blocks[bd]["stmts"][sd]
+                if x["k"] != "assign" or x["p"]["pr"] or x["rv"]["k"] != "use":
+                    sts = None
+                    break
+                sts.append((bd, sd))
+            if not sts:
+                continue
+            for (bd, sd) in sorted(sts, reverse=True):
+                del blocks[bd]["stmts"][sd]
+                dirty.add(bd)
+            changed = True
+        if changed:
+            n_changes += 1
+            continue
+        break
+    if n_changes:
+        log.append("%s: %d accumulator copy step(s) removed" % (b["path"], n_changes))
 
 # ------------------------------------------------------------------ Option combinators
 
@@ -1369,11 +1799,15 @@ def normalise_assoc(ty):
 
 def instantiate(b, loff, boff, mapping):
     """the spliced copy of a generic helper: its type parameters are replaced by the call site's arguments in every type that is printed"""
-    pats = [(re.compile(r"(?<![\w:'])%s(?![\w:])" % re.escape(k)), v) for k, v in mapping.items()]
+    pats = [(re.compile(r"(?<![\w:'])%s(?![\w:])" % re.escape(k)), v) for k, v in mapping.items() if not k.startswith("impl ")]
+    # an argument written `x: impl Trait<..>` is an unnamed type parameter, printed as that text (which may mention the named ones: it goes first)
+    synthetic = [(k, v) for k, v in mapping.items() if k.startswith("impl ")]
 
     def sub(t):
         if not isinstance(t, str):
             return t
+        for (k, v) in synthetic:
+            t = t.replace(k, v)
         for (rx, v) in pats:
             t = rx.sub(lambda _m: v, t)
         return normalise_assoc(t)
@@ -1536,7 +1970,7 @@ def inline_unknown(data, bodies, known, log):
                     pro, entry = splice(b, g, [use(copy.deepcopy(a)) for a in t["args"]], t["dest"], t["t"], loc)
                     gen = [x for x in (g.get("generics") or [])]
                     if gen and len(gen) == len(fn.get("gargs") or []):
-                        mapping = {k: v for k, v in zip(gen, fn["gargs"]) if k != v and re.match(r"^[A-Za-z_]\w*$", k)}
+                        mapping = {k: v for k, v in zip(gen, fn["gargs"]) if k != v and (re.match(r"^[A-Za-z_]\w*$", k) or k.startswith("impl "))}
                         if mapping:
                             instantiate(b, loff, boff, mapping)
                             resolve_trait_calls(b, boff, bodies)
@@ -2527,8 +2961,11 @@ def recognise_renames(data, ref, log):
         inv = {v: k for k, v in mp.items()}
         tr = lambda xs: [mp.get(x, x) for x in xs]
         s_ = 0.0
+        unref = lambda t: re.sub(r"^&('\w+ )?(mut )?", "", t).strip()
         if c["args"] == r["args"] and c["ret"] == r["ret"]:
             s_ += 2.0
+        elif [unref(a) for a in c["args"]] == [unref(a) for a in r["args"]] and c["ret"] == r["ret"]:
+            s_ += 1.5  # the same parameters, now borrowed (or now owned)
         elif len(c["args"]) == len(r["args"]) and c["ret"] == r["ret"]:
             s_ += 0.75
         elif len(c["args"]) != len(r["args"]):
@@ -2665,6 +3102,8 @@ def preprocess(data, known=None, known_uses=None):
     for b in data["bodies"]:
         if b.get("derived") or b["path"] in dropped:
             continue
+        if guarded("tuple splitting", split_tuples, b, log) or b.get("_fold"):
+            guarded("accumulator threading", thread_accumulators, b, log)
         try:
             devirtualise(b, log)
         except Exception as e:
